@@ -60,7 +60,7 @@ def extract(repo=None, profile="dev", crates=("mila",), with_deps=False):
     key = tree_hash(repo, profile + "," + ",".join(crates) + ("+deps" if with_deps else ""))
     cdir = os.path.join(CACHE, key)
     os.makedirs(CACHE, exist_ok=True)
-    lock = open(os.path.join(CACHE, ".lock"), "w")
+    lock = open(os.path.join(CACHE, ".lock-" + key), "w")   # one lock per content hash: different trees extract in parallel
     fcntl.flock(lock, fcntl.LOCK_EX)
     try:
         want = {c: os.path.join(cdir, c.replace("-", "_") + ".json") for c in crates}
@@ -113,12 +113,18 @@ def extract(repo=None, profile="dev", crates=("mila",), with_deps=False):
         lock.close()
 
 
-def prune(keep=12):
+def prune(keep=40):
     try:
         ds = [os.path.join(CACHE, d) for d in os.listdir(CACHE) if os.path.isdir(os.path.join(CACHE, d))]
         ds.sort(key=lambda d: os.path.getmtime(d), reverse=True)
         for d in ds[keep:]:
             shutil.rmtree(d, ignore_errors=True)
+        for f in os.listdir(CACHE):
+            if f.startswith(".lock-") and not os.path.isdir(os.path.join(CACHE, f[6:])):
+                try:
+                    os.unlink(os.path.join(CACHE, f))
+                except OSError:
+                    pass
     except OSError:
         pass
 
